@@ -251,7 +251,7 @@ impl Property for C07 {
         ]
     }
     fn random_cases(&self, tier: Tier) -> u64 {
-        tier.pick(60_000, 2_000_000)
+        tier.pick(200_000, 4_000_000)
     }
     fn max_tape(&self) -> usize {
         500
